@@ -77,6 +77,8 @@ theorem list12 {α} (l : List α) (h : l.length = 12) :
   subst this
   exact ⟨b0, b1, b2, b3, b4, b5, b6, b7, b8, b9, b10, b11, rfl⟩
 
+theorem nib (x y c : Nat) (h : x % 16 = y % 16) : (y * 256 + c) % 4096 = (x * 256 + c) % 4096 := by omega
+
 /-- big-endian value is injective on byte strings of equal length -/
 theorem beNat_inj (x y : Bytes) (hl : x.length = y.length) (h : beNat x = beNat y) : x = y := by
   have hx := beBytes_beNat x
@@ -263,5 +265,153 @@ theorem PMT_unpack_section (t : PMT) (buf : Bytes) (p : Pkt) (Hd X C R : Bytes)
         injection hb with hb
         rw [← hb, ← hcrc]
       · simp at hb
+
+/-! ### one changed byte of a packed PMT packet -/
+
+/-- offset of the section (its `table_id` byte) in the packet: header, adaptation bytes, pointer field -/
+def PMT_secOff (s : PMT) : Nat := 5 + (Pkt_af (PMT_pkt s)).length
+
+/-- descriptor and stream bytes of the section -/
+def PMT_loops (s : PMT) : Bytes := PMT_dbytes s ++ PMT_sbytes s
+
+theorem PMT_loops_length (s : PMT) : 13 + (PMT_loops s).length = PMT_slen s := by
+  simp [PMT_loops, PMT_slen]; omega
+
+/-- the packed packet, cut at the section's parts -/
+theorem PMT_bytes_parts (s : PMT) :
+    Pkt_bytes (PMT_pkt s) = (Pkt_hdr (PMT_pkt s) ++ Pkt_af (PMT_pkt s) ++ [0]) ++
+      (PMT_hdr s ++ (PMT_loops s ++ (PMT_crc4 s ++ Pkt_stuffing (PMT_pkt s)))) := by
+  have : (PMT_pkt s).payload = PMT_payload s := rfl
+  simp [Pkt_bytes, this, PMT_payload, PMT_body, PMT_loops, PMT_crc4, Pkt_stuffing, encInt, beBytes, leBytes,
+    List.append_assoc]
+
+theorem PMT_hdr_steer (s : PMT) (h : PMT_WF s) :
+    (((PMT_hdr s).getD 1 0).toNat * 256 + ((PMT_hdr s).getD 2 0).toNat) % 4096 = PMT_slen s ∧
+    (((PMT_hdr s).getD 10 0).toNat * 256 + ((PMT_hdr s).getD 11 0).toNat) % 4096 = (PMT_dbytes s).length := by
+  obtain ⟨hw, h1, h2, h3, h4, h5, h6, h7, h8, hd, hs, hl⟩ := h
+  have hdl : (PMT_dbytes s).length < 4096 := by unfold PMT_slen at hl; omega
+  have e2 : ∀ v, encInt true 2 v = [UInt8.ofNat (v / 256 % 256), UInt8.ofNat (v % 256)] := by
+    intro v; simp [encInt, beBytes, leBytes]
+  have e1 : ∀ v, encInt true 1 v = [UInt8.ofNat (v % 256)] := by
+    intro v; simp [encInt, beBytes, leBytes]
+  simp only [PMT_hdr, e1, e2, List.cons_append, List.nil_append, List.getD_cons_succ, List.getD_cons_zero,
+    UInt8.toNat_ofNat']
+  constructor <;> omega
+
+/-- decode of header ++ adaptation bytes ++ pointer 0 ++ arbitrary section, then the CRC comparison -/
+theorem PMT_section_result (s t : PMT) (h : PMT_WF s) (hs : s.pkt.sync = 0x47)
+    (hafc : s.pkt.adaption_ctrl = 1 ∨ s.pkt.adaption_ctrl = 3) (Hd X C R : Bytes)
+    (hH : Hd.length = 12) (hC : C.length = 4)
+    (hlen : ((Hd.getD 1 0).toNat * 256 + (Hd.getD 2 0).toNat) % 4096 = 13 + X.length)
+    (hpil : ((Hd.getD 10 0).toNat * 256 + (Hd.getD 11 0).toNat) % 4096 ≤ X.length)
+    (b : Bool)
+    (hb : (PMT.unpack t ((Pkt_hdr (PMT_pkt s) ++ Pkt_af (PMT_pkt s) ++ [0]) ++ (Hd ++ (X ++ (C ++ R))))).2 = .ok b) :
+    b = (beNat C == crc32mpeg2 (Hd ++ X)) := by
+  have hwp : Pkt_WF (PMT_pkt s) := h.1
+  have h2af : (PMT_pkt s).adaption_ctrl = 2 → (PMT_pkt s).adaption_field.isSome = true := by
+    intro c; have : s.pkt.adaption_ctrl = 2 := c; omega
+  have hafc' : (PMT_pkt s).adaption_ctrl = 1 ∨ (PMT_pkt s).adaption_ctrl = 3 := hafc
+  have hbuf : (Pkt_hdr (PMT_pkt s) ++ Pkt_af (PMT_pkt s) ++ [0]) ++ (Hd ++ (X ++ (C ++ R))) =
+      Pkt_hdr (PMT_pkt s) ++ (Pkt_af (PMT_pkt s) ++ ((0 : UInt8) :: (Hd ++ (X ++ (C ++ R))))) := by
+    simp [List.append_assoc]
+  rw [hbuf] at hb
+  have hp := Pkt_unpack_tail (PMT_pkt s) t.pkt ((0 : UInt8) :: (Hd ++ (X ++ (C ++ R)))) hwp hs h2af
+  have hpl : (Pkt_decodedT (PMT_pkt s) ((0 : UInt8) :: (Hd ++ (X ++ (C ++ R))))).payload =
+      (0 : UInt8) :: (Hd ++ (X ++ (C ++ R))) := by
+    simp only [Pkt_decodedT, if_pos hafc']
+  exact PMT_unpack_section t _ _ Hd X C R hp hpl hH hC hlen hpil b hb
+
+/-- **one byte of the section of a packed PMT packet changed** (anywhere from `table_id` to the last
+    CRC byte, the low 12 bits of `section_length` and of `program_info_length` kept): the decoder does
+    not return True — if it returns at all (it may raise when the change mis-frames the descriptor or
+    stream loop) it returns False. -/
+theorem PMT_flip_rejected (s t : PMT) (h : PMT_WF s) (hs : s.pkt.sync = 0x47)
+    (hafc : s.pkt.adaption_ctrl = 1 ∨ s.pkt.adaption_ctrl = 3)
+    (pre suf : Bytes) (a a' : UInt8) (hbuf : Pkt_bytes (PMT_pkt s) = pre ++ a :: suf) (hne : a ≠ a')
+    (hlo : PMT_secOff s ≤ pre.length) (hhi : pre.length < PMT_secOff s + PMT_slen s + 3)
+    (h2 : pre.length ≠ PMT_secOff s + 2) (h11 : pre.length ≠ PMT_secOff s + 11)
+    (h1 : pre.length = PMT_secOff s + 1 → a.toNat % 16 = a'.toNat % 16)
+    (h10 : pre.length = PMT_secOff s + 10 → a.toNat % 16 = a'.toNat % 16)
+    (b : Bool) (hb : (PMT.unpack t (pre ++ a' :: suf)).2 = .ok b) : b = false := by
+  obtain ⟨hst1, hst2⟩ := PMT_hdr_steer s h
+  have hLL := PMT_loops_length s
+  have hHl := PMT_hdr_length s
+  have hCl : (PMT_crc4 s).length = 4 := by simp [PMT_crc4]
+  have hdl : (PMT_dbytes s).length ≤ (PMT_loops s).length := by simp [PMT_loops]
+  have hcrc0 : beNat (PMT_crc4 s) = crc32mpeg2 (PMT_hdr s ++ PMT_loops s) := by
+    have : crc32mpeg2 (PMT_body s) < 256 ^ 4 := by unfold crc32mpeg2; omega
+    have e : PMT_body s = PMT_hdr s ++ PMT_loops s := rfl
+    rw [← e]
+    simp only [PMT_crc4, encInt, if_true]
+    exact beNat_beBytes_of_lt 4 _ this
+  rw [PMT_bytes_parts s] at hbuf
+  have hFl : (Pkt_hdr (PMT_pkt s) ++ Pkt_af (PMT_pkt s) ++ [0]).length = PMT_secOff s := by
+    simp [PMT_secOff]; omega
+  obtain ⟨pre2, rfl, hsec⟩ := split_right _ _ pre suf a hbuf (by omega)
+  simp only [List.length_append, hFl] at hlo hhi h2 h11 h1 h10
+  rw [List.append_assoc] at hb
+  by_cases c1 : pre2.length < 12
+  · -- the fixed part of the section
+    obtain ⟨suf1, hHd, rfl⟩ := split_left _ _ pre2 suf a hsec (by omega)
+    have hlen' : (pre2 ++ a' :: suf1).length = 12 := by
+      have := congrArg List.length hHd; simp at this ⊢; omega
+    have k1 : (((pre2 ++ a' :: suf1).getD 1 0).toNat * 256 + ((pre2 ++ a' :: suf1).getD 2 0).toNat) % 4096
+        = 13 + (PMT_loops s).length := by
+      rw [getD_changed_ne pre2 suf1 a a' 0 2 (by omega), ← hHd, hLL, ← hst1]
+      by_cases c : pre2.length = 1
+      · have e1 : (pre2 ++ a' :: suf1).getD 1 0 = a' := by rw [← c]; exact getD_changed_eq _ _ _ _
+        have e2 : (PMT_hdr s).getD 1 0 = a := by rw [hHd, ← c]; exact getD_changed_eq _ _ _ _
+        rw [e1, e2]; exact nib _ _ _ (h1 (by omega))
+      · rw [getD_changed_ne pre2 suf1 a a' 0 1 c, ← hHd]
+    have k2 : (((pre2 ++ a' :: suf1).getD 10 0).toNat * 256 + ((pre2 ++ a' :: suf1).getD 11 0).toNat) % 4096
+        ≤ (PMT_loops s).length := by
+      rw [getD_changed_ne pre2 suf1 a a' 0 11 (by omega), ← hHd]
+      refine Nat.le_trans (Nat.le_of_eq ?_) hdl
+      rw [← hst2]
+      by_cases c : pre2.length = 10
+      · have e1 : (pre2 ++ a' :: suf1).getD 10 0 = a' := by rw [← c]; exact getD_changed_eq _ _ _ _
+        have e2 : (PMT_hdr s).getD 10 0 = a := by rw [hHd, ← c]; exact getD_changed_eq _ _ _ _
+        rw [e1, e2]; exact nib _ _ _ (h10 (by omega))
+      · rw [getD_changed_ne pre2 suf1 a a' 0 10 c, ← hHd]
+    have hb' : (PMT.unpack t ((Pkt_hdr (PMT_pkt s) ++ Pkt_af (PMT_pkt s) ++ [0]) ++
+        ((pre2 ++ a' :: suf1) ++ (PMT_loops s ++ (PMT_crc4 s ++ Pkt_stuffing (PMT_pkt s)))))).2 = .ok b := by
+      simpa [List.append_assoc] using hb
+    have := PMT_section_result s t h hs hafc _ _ _ _ hlen' hCl k1 k2 b hb'
+    rw [this, hcrc0, hHd]
+    have hd := crc_detects_byte pre2 (suf1 ++ PMT_loops s) a a' hne
+    simp only [List.append_assoc, List.cons_append] at hd ⊢
+    simpa using hd
+  · obtain ⟨pre3, rfl, hsec3⟩ := split_right _ _ pre2 suf a hsec (by omega)
+    simp only [List.length_append, hHl] at hlo hhi h2 h11 h1 h10 c1
+    by_cases c2 : pre3.length < (PMT_loops s).length
+    · -- descriptor / stream bytes
+      obtain ⟨suf1, hX, rfl⟩ := split_left _ _ pre3 suf a hsec3 c2
+      have hXl : (pre3 ++ a' :: suf1).length = (PMT_loops s).length := by
+        have := congrArg List.length hX; simp at this ⊢; omega
+      have hb' : (PMT.unpack t ((Pkt_hdr (PMT_pkt s) ++ Pkt_af (PMT_pkt s) ++ [0]) ++
+          (PMT_hdr s ++ ((pre3 ++ a' :: suf1) ++ (PMT_crc4 s ++ Pkt_stuffing (PMT_pkt s)))))).2 = .ok b := by
+        simpa [List.append_assoc] using hb
+      have := PMT_section_result s t h hs hafc _ _ _ _ hHl hCl (by rw [hXl, hst1, hLL]) (by rw [hXl, hst2]; exact hdl) b hb'
+      rw [this, hcrc0, hX]
+      have hd := crc_detects_byte (PMT_hdr s ++ pre3) suf1 a a' hne
+      simp only [List.append_assoc] at hd ⊢
+      simpa using hd
+    · -- the CRC bytes
+      obtain ⟨pre4, rfl, hsec4⟩ := split_right _ _ pre3 suf a hsec3 (by omega)
+      simp only [List.length_append] at hhi
+      obtain ⟨suf1, hCC, rfl⟩ := split_left _ _ pre4 suf a hsec4 (by omega)
+      have hCl' : (pre4 ++ a' :: suf1).length = 4 := by
+        have := congrArg List.length hCC; simp at this ⊢; omega
+      have hb' : (PMT.unpack t ((Pkt_hdr (PMT_pkt s) ++ Pkt_af (PMT_pkt s) ++ [0]) ++
+          (PMT_hdr s ++ (PMT_loops s ++ ((pre4 ++ a' :: suf1) ++ Pkt_stuffing (PMT_pkt s)))))).2 = .ok b := by
+        simpa [List.append_assoc] using hb
+      have := PMT_section_result s t h hs hafc _ _ _ _ hHl hCl' (by rw [hst1, hLL]) (by rw [hst2]; exact hdl) b hb'
+      rw [this, ← hcrc0, hCC]
+      have : beNat (pre4 ++ a' :: suf1) ≠ beNat (pre4 ++ a :: suf1) := by
+        intro c
+        have := beNat_inj _ _ (by simp) c
+        simp at this
+        exact hne this.symm
+      simpa using this
 
 end Acra.Lemmas.MpegFlip
